@@ -263,10 +263,12 @@ double _vnacal_new_solve_calc_pvalue(vnacal_new_solve_state_t *vnssp,
      */
 
     /*
-     * If there are no degrees of freedom, then the p-value is zero.
+     * If there are no degrees of freedom, there are no residuals to
+     * test: an exactly determined system cannot be inconsistent with
+     * the error model, so the null hypothesis cannot be rejected.
      */
     if (df < 1) {
-	return 0.0;
+	return 1.0;
     }
 
     /*
